@@ -523,3 +523,19 @@ Example typed_val_examples :
   /\ typed_val2 false "-9223372036854775808" = VNum (-9223372036854775808)
   /\ typed_val2 false "" = VStr "" /\ typed_val2 false "-" = VStr "-" /\ typed_val2 true "true" = VStr "true".
 Proof. repeat split; reflexivity. Qed.
+
+(* emptyVal never runs out of fuel either: more fuel than the input is long changes nothing *)
+Lemma empty_val2_fuel : forall f g s, String.length s < f -> String.length s < g -> empty_val2_f f s = empty_val2_f g s.
+Proof.
+  induction f as [|f IH]; intros g s Hf Hg; [lia|].
+  destruct g as [|g]; [lia|]. simpl.
+  destruct (read_rune s) as [[r t]|] eqn:R; [|reflexivity].
+  pose proof (read_rune_len _ _ _ R) as Ht.
+  destruct (String.eqb r ","); [reflexivity|]. destruct (is_space_rune r); [|reflexivity].
+  apply IH; lia.
+Qed.
+
+Example empty_val2_examples :
+  empty_val2 EmptyString = (true, EmptyString) /\ empty_val2 " " = (true, EmptyString)
+  /\ empty_val2 (" " ++ bs [194; 160] ++ ",x") = (true, "x") /\ empty_val2 " 1" = (false, "1").
+Proof. repeat split; reflexivity. Qed.
